@@ -64,9 +64,9 @@ WITNESSES = [
     dict(id="c20-evaluate-never", prop="C20", file=S, expect="R20c",
          old="    if evaluate_deltas:\n", new="    if evaluate_deltas is None:\n"),
     dict(id="c20-evaluate-no-targets", prop="C20", file=S, expect="R20c",
-         old="func.evaluate_deltas(res.sympy)", new="func.evaluate_deltas(res.sympy, target_idx=\"\")"),
+         old="func.evaluate_deltas(res.sympy, res.provided_target_idx)", new="func.evaluate_deltas(res.sympy, \"\")"),
     dict(id="c20-evaluate-container", prop="C20", file=S, expect="R20c",
-         old="func.evaluate_deltas(res.sympy)", new="func.evaluate_deltas(res)"),
+         old="func.evaluate_deltas(res.sympy, res.provided_target_idx)", new="func.evaluate_deltas(res, res.provided_target_idx)"),
     dict(id="c20-evaluate-per-term", prop="C20", file=S, expect="R20c",
          old="        res += simplify_term_unitary(term)\n",
          new="        res += func.evaluate_deltas(simplify_term_unitary(term).sympy)\n"),
@@ -95,11 +95,67 @@ WITNESSES = [
          edits=[("        idx_counter = Counter(term.idx)\n",
                  "        remainder_idx = {s for i, o in enumerate(obj)\n                         if i not in unitary_tensors for s in o.idx}\n"),
                 ("                    idx_counter[idx1[0]] == 2:", "                    idx1[0] not in remainder_idx:"),
-                ("                    idx_counter[idx1[1]] == 2:", "                    idx1[1] not in remainder_idx:")]),
+                ("                    idx_counter[idx1[1]] == 2:", "                    idx1[1] not in remainder_idx:"),
+                ("all(idx_counter[s] == 2 for s in idx1)", "all(s not in remainder_idx for s in idx1)")]),
     dict(id="c20-seed-einstein-targets", prop="C20", file=S, expect="R20",
          edits=[("        target = term.target\n        idx_counter = Counter(term.idx)\n",
                  "        idx_counter = Counter(term.idx)\n        target = {s for s, n in idx_counter.items() if n == 1}\n")]),
+    # reverts of the fixes 85db5b6 / 1b02e68 (findings of this module) and variants of the repaired guards
+    dict(id="c20-square-revert", prop="C20", file=S, expect="R20a",
+         old="            # both indices are shared and occur nowhere else: the delta\n"
+             "            # would be 1 and the remaining index (and its sum) would be lost\n"
+             "            if idx1 == idx2 and all(idx_counter[s] == 2 for s in idx1):\n                continue\n",
+         new=""),
+    dict(id="c20-evaluate-einstein-revert", prop="C20", file=S, expect="R20c",
+         old="        res = e.Expr(\n            func.evaluate_deltas(res.sympy, res.provided_target_idx),\n            **res.assumptions\n        )\n",
+         new="        res = e.Expr(func.evaluate_deltas(res.sympy), **res.assumptions)\n"),
+    dict(id="c20-square-guard-any", prop="C20", file=S, expect="R20",
+         old="if idx1 == idx2 and all(idx_counter[s] == 2 for s in idx1):", new="if idx1 == idx2 and any(idx_counter[s] == 2 for s in idx1):"),
+    dict(id="c20-square-guard-every-pair", prop="C20", file=S, expect="R20",
+         old="if idx1 == idx2 and all(idx_counter[s] == 2 for s in idx1):", new="if all(idx_counter[s] == 2 for s in idx1):"),
+    dict(id="c20-square-guard-never", prop="C20", file=S, expect="R20a",
+         old="if idx1 == idx2 and all(idx_counter[s] == 2 for s in idx1):", new="if idx1 == idx2 and all(idx_counter[s] == 1 for s in idx1):"),
+    dict(id="c20-evaluate-term-targets", prop="C20", file=S, expect="R20c",
+         old="func.evaluate_deltas(res.sympy, res.provided_target_idx)", new="func.evaluate_deltas(res.sympy, ())"),
+    # seeded change C20-3 on the repaired code (the seeded patch itself no longer applies): targets handed over as a
+    # string of index names, which drops the spin labels
+    dict(id="c20-seed-name-string-targets", prop="C20", file=S, expect="R20c",
+         edits=[("    res = e.Expr(0, **expr.assumptions)\n    for term in expr.terms:\n",
+                 "    res = e.Expr(0, **expr.assumptions)\n    target = set()\n    for term in expr.terms:\n        target.update(term.target)\n"),
+                ("func.evaluate_deltas(res.sympy, res.provided_target_idx)",
+                 "func.evaluate_deltas(res.sympy, \"\".join(sorted(s.name for s in target)))")]),
+    # seeded change C20-1 as it stands after the fix 85db5b6 (idx_counter no longer defined: NameError on every eligible pair)
+    dict(id="c20-seed-remainder-nameerror", prop="C20", file=S, expect="R20",
+         edits=[("        idx_counter = Counter(term.idx)\n",
+                 "        remainder_idx = {s for i, o in enumerate(obj)\n                         if i not in unitary_tensors for s in o.idx}\n"),
+                ("                    idx_counter[idx1[0]] == 2:", "                    idx1[0] not in remainder_idx:"),
+                ("                    idx_counter[idx1[1]] == 2:", "                    idx1[1] not in remainder_idx:")]),
     # ------------------------------------------------------------------ behaviour-preserving edits
+    # refactoring D5 (tuple unpacking of the index pairs, membership test in the remainder loop) on the repaired code
+    dict(id="c20-ok-d5-unpacking", prop="C20", file=S, expect=None,
+         edits=[("            idx1 = obj[i1].idx\n            idx2 = obj[i2].idx\n",
+                 "            first1, second1 = obj[i1].idx\n            first2, second2 = obj[i2].idx\n"),
+                (_IF1 + "\n                delta = KroneckerDelta(idx1[1], idx2[1])",
+                 "            if first1 == first2 and first1 not in target and \\\n                    idx_counter[first1] == 2:\n"
+                 "                delta = KroneckerDelta(second1, second2)"),
+                (_IF2 + "\n                delta = KroneckerDelta(idx1[0], idx2[0])",
+                 "            elif second1 == second2 and second1 not in target and \\\n                    idx_counter[second1] == 2:\n"
+                 "                delta = KroneckerDelta(first1, first2)"),
+                ("if idx1 == idx2 and all(idx_counter[s] == 2 for s in idx1):",
+                 "if (first1, second1) == (first2, second2) and \\\n                    all(idx_counter[s] == 2 for s in (first1, second1)):"),
+                ("                if i == i1 or i == i2:\n                    continue\n                else:\n                    new_term *= o\n",
+                 "                if i not in (i1, i2):\n                    new_term *= o\n")]),
+    dict(id="c20-ok-square-guard-spelled", prop="C20", file=S, expect=None,
+         old="if idx1 == idx2 and all(idx_counter[s] == 2 for s in idx1):",
+         new="if i1 == i2 and idx_counter[idx1[0]] == 2 and idx_counter[idx1[1]] == 2:"),
+    dict(id="c20-ok-square-guard-first", prop="C20", file=S, expect=None,
+         edits=[("            # both indices are shared and occur nowhere else: the delta\n"
+                 "            # would be 1 and the remaining index (and its sum) would be lost\n"
+                 "            if idx1 == idx2 and all(idx_counter[s] == 2 for s in idx1):\n                continue\n", ""),
+                ("            idx2 = obj[i2].idx\n",
+                 "            idx2 = obj[i2].idx\n            if idx1 == idx2 and {idx_counter[s] for s in idx1} == {2}:\n                continue\n")]),
+    dict(id="c20-ok-evaluate-targets-from-expr", prop="C20", file=S, expect=None,
+         old="func.evaluate_deltas(res.sympy, res.provided_target_idx)", new="func.evaluate_deltas(res.sympy, expr.provided_target_idx)"),
     dict(id="c20-ok-rename", prop="C20", file=S, expect=None,
          old="        target = term.target\n        idx_counter = Counter(term.idx)", new="        idx_counter = Counter(term.idx)\n        target = term.target"),
     dict(id="c20-ok-manual-counter", prop="C20", file=S, expect=None,
@@ -108,7 +164,8 @@ WITNESSES = [
     dict(id="c20-ok-tuple-count", prop="C20", file=S, expect=None,
          edits=[("        idx_counter = Counter(term.idx)\n", "        all_idx = term.idx\n"),
                 ("                    idx_counter[idx1[0]] == 2:", "                    all_idx.count(idx1[0]) == 2:"),
-                ("                    idx_counter[idx1[1]] == 2:", "                    all_idx.count(idx1[1]) == 2:")]),
+                ("                    idx_counter[idx1[1]] == 2:", "                    all_idx.count(idx1[1]) == 2:"),
+                ("all(idx_counter[s] == 2 for s in idx1)", "all(all_idx.count(s) == 2 for s in idx1)")]),
     dict(id="c20-ok-index-loops", prop="C20", file=S, expect=None,
          old="        for (i1, i2) in combinations(unitary_tensors, 2):\n",
          new="        for i1, i2 in ((unitary_tensors[n1], unitary_tensors[n2])\n                       for n1 in range(len(unitary_tensors))\n"
@@ -154,5 +211,5 @@ WITNESSES = [
              "                              antisym_tensors=term.antisym_tensors,\n"
              "                              target_idx=term.provided_target_idx)"),
     dict(id="c20-ok-evaluate-keyword", prop="C20", file=S, expect=None,
-         old="func.evaluate_deltas(res.sympy)", new="func.evaluate_deltas(expr=res.sympy, target_idx=None)"),
+         old="func.evaluate_deltas(res.sympy, res.provided_target_idx)", new="func.evaluate_deltas(expr=res.sympy, target_idx=res.provided_target_idx)"),
 ]
